@@ -180,7 +180,7 @@ pub fn run(tier: Tier, seed: u64, known: &Known) -> PropRun {
         "the hook verif_go_budget returns exactly the (depth, time limit) pair handle_go_command would pass to find_best_move (it records them and returns before the search)".into(),
         "clock values beyond one day and non-numeric tokens are outside the stated domain".into(),
     ];
-    let part = Part { name: "budget", cases: tier.pick(400_000, 20_000_000), min_len: 40, max_len: 64, max_shrink: 3000, threads: threads() };
+    let part = Part { name: "budget", cases: tier.pick(2_000_000, 20_000_000), min_len: 40, max_len: 64, max_shrink: 3000, threads: threads() };
     let (st, fl) = run_part(&part, seed, known, check);
     run.stats.merge(st);
     run.failure = fl;
